@@ -639,8 +639,10 @@ func localDef(p *loadedPkg, fd *ast.FuncDecl, v *types.Var) ast.Expr {
 
 type sacc struct{ method, field, rw string }
 
-var sendRoots = []string{"SendMessage", "SendPartialMessage", "WriteMessage", "StartMessage", "EndMessage", "WriteFrame", "PutFile"}
-var recvRoots = []string{"ReceiveFrame", "ReceiveFrameWithEnd", "ReadFrame", "ReceiveCompleteMessage", "StartMessageRead", "ReadMessageBytes", "EndMessageRead", "GetFile"}
+var sendRoots = []string{"SendMessage", "SendPartialMessage", "WriteMessage", "StartMessage", "EndMessage", "WriteFrame", "PutFile",
+	"PutSecret", "PrepareCryptoForSecret", "RestoreCryptoAfterSecret", "CryptoForSecretIsNoop", "IsEncrypted"} // the message layer toggles crypto for secret fields on both paths
+var recvRoots = []string{"ReceiveFrame", "ReceiveFrameWithEnd", "ReadFrame", "ReceiveCompleteMessage", "StartMessageRead", "ReadMessageBytes", "EndMessageRead", "GetFile",
+	"GetSecret", "PrepareCryptoForSecret", "RestoreCryptoAfterSecret", "IsEncrypted"}
 
 func streamSplit(p *loadedPkg) (send, recv []sacc, sendM, recvM []string, err error) {
 	methods := map[string]*ast.FuncDecl{}
@@ -696,6 +698,40 @@ func streamSplit(p *loadedPkg) (send, recv []sacc, sendM, recvM []string, err er
 			}
 			return true
 		})
+		// accesses that only happen in the key-present / encryption-off mode, where the
+		// crypto-for-secret toggle really switches the (single, per-stream) encryption flag:
+		// inside `if ... !s.encrypted ...` of the toggle or `if s.cryptoToggledForSecret`
+		modeRanges := [][2]token.Pos{}
+		if strings.Contains(strings.ToLower(name), "secret") {
+			ast.Inspect(fd.Body, func(n ast.Node) bool {
+				if is, ok := n.(*ast.IfStmt); ok {
+					txt := ""
+					ast.Inspect(is.Cond, func(x ast.Node) bool {
+						switch v := x.(type) {
+						case *ast.UnaryExpr:
+							if v.Op == token.NOT {
+								txt += "!" + exprText(v.X) + " "
+							}
+						case *ast.SelectorExpr:
+							txt += exprText(v) + " "
+						}
+						return true
+					})
+					if strings.Contains(txt, "!s.encrypted") || strings.Contains(txt, "s.cryptoToggledForSecret") {
+						modeRanges = append(modeRanges, [2]token.Pos{is.Body.Pos(), is.Body.End()})
+					}
+				}
+				return true
+			})
+		}
+		isMode := func(pos token.Pos) bool {
+			for _, r := range modeRanges {
+				if pos >= r[0] && pos < r[1] {
+					return true
+				}
+			}
+			return false
+		}
 		isPre := func(pos token.Pos) bool {
 			for _, r := range preRanges {
 				if pos >= r[0] && pos < r[1] {
@@ -724,6 +760,8 @@ func streamSplit(p *loadedPkg) (send, recv []sacc, sendM, recvM []string, err er
 						rw = "WOnce"
 					} else if isPre(v.Pos()) {
 						rw = "Pre" + rw
+					} else if isMode(v.Pos()) {
+						rw = "Mode" + rw
 					}
 					accs[name] = append(accs[name], sacc{name, v.Sel.Name, rw})
 				} else if s.Kind() == types.MethodVal {
